@@ -343,9 +343,37 @@ func c19GroupNext(r *Run, ic *iterCopy) string {
 			if !ok {
 				return bad("a branch is not the comparison pos < len(groups)")
 			}
-			t, ok := ltTruth(bo.Op, linOf(p, bo.X, atom, 0), linOf(p, bo.Y, atom, 0), d.truth, pos, "len")
+			la, lb := linOf(p, bo.X, atom, 0), linOf(p, bo.Y, atom, 0)
+			// a test of the number of groups against a constant: "there are none" is the finished case (the position
+			// starts at zero and only grows); "there are some" says nothing about the position
+			if la.ok && lb.ok && ((la.atom == "len" && la.c == 0 && lb.atom == "") || (lb.atom == "len" && lb.c == 0 && la.atom == "")) {
+				op, k := bo.Op, lb.c
+				if la.atom == "" {
+					// k op len  ->  len op' k
+					flip := map[token.Token]token.Token{token.LSS: token.GTR, token.GTR: token.LSS, token.LEQ: token.GEQ, token.GEQ: token.LEQ, token.EQL: token.EQL, token.NEQ: token.NEQ}
+					op, k = flip[op], la.c
+				}
+				if !d.truth {
+					neg := map[token.Token]token.Token{token.LSS: token.GEQ, token.GEQ: token.LSS, token.LEQ: token.GTR, token.GTR: token.LEQ, token.EQL: token.NEQ, token.NEQ: token.EQL}
+					op = neg[op]
+				}
+				empty := (op == token.EQL && k == 0) || (op == token.LEQ && k <= 0) || (op == token.LSS && k <= 1)
+				some := (op == token.NEQ && k == 0) || (op == token.GTR && k >= 0) || (op == token.GEQ && k >= 1)
+				switch {
+				case empty:
+					lt, known = false, true
+					continue
+				case some:
+					continue
+				}
+				return bad("a branch is not the comparison pos < len(groups)")
+			}
+			t, ok := ltTruth(bo.Op, la, lb, d.truth, pos, "len")
 			if !ok {
 				return bad("a branch is not the comparison pos < len(groups)")
+			}
+			if known && !lt && t {
+				return bad("contradictory comparisons on one path")
 			}
 			lt, known = t, true
 		}
@@ -925,6 +953,12 @@ func c19Partition(r *Run, ic *iterCopy) []string {
 	fam := sameLenFamily(u)
 	nv := func(v ssa.Value) ssa.Value { return crossNormIn(v, fn) }
 	lo, hi := nv(args[0]), nv(args[1])
+	// the bounds may come out of a list of spans that a helper computed first: [from, to) pairs appended
+	// one per iteration of the partition loop, then visited in order by the loop that cuts the groups
+	var producerAppend *ssa.BasicBlock
+	if plo, phi, ab, isList := spanListElement(args[0], args[1]); isList {
+		lo, hi, producerAppend = nv(plo), nv(phi), ab
+	}
 	isLen := func(v ssa.Value) bool { return isLenOf(v, fam) }
 	// lo: induction variable phi(0, lo + g)
 	var g ssa.Value
@@ -940,6 +974,18 @@ func c19Partition(r *Run, ic *iterCopy) []string {
 				g, step = nv(bo.Y), true
 			} else if ok && bo.Op == token.ADD && bo.Y == ssa.Value(loPhi) {
 				g, step = nv(bo.X), true
+			} else if nv(e) == hi {
+				// pos = e: the next group starts at the (clamped) end of this one - literally "where the previous
+				// ended"; the group size is read from the unclamped end pos + g
+				if hp, isHP := hi.(*ssa.Phi); isHP {
+					for _, x := range hp.Edges {
+						if b2, isB := x.(*ssa.BinOp); isB && b2.Op == token.ADD && nv(b2.X) == lo {
+							g, step = nv(b2.Y), true
+						} else if isB && b2.Op == token.ADD && nv(b2.Y) == lo {
+							g, step = nv(b2.X), true
+						}
+					}
+				}
 			}
 		}
 		if len(loPhi.Edges) != 2 {
@@ -1006,6 +1052,9 @@ func c19Partition(r *Run, ic *iterCopy) []string {
 				// (the block in the loop's own function from which the group is cut: the Slice itself, or
 				// the call that runs the helper / callback it sits in)
 				cutBlock := blockInFunction(sl, hb.Parent())
+				if cutBlock == nil && producerAppend != nil && producerAppend.Parent() == hb.Parent() {
+					cutBlock = producerAppend // where the span that becomes the group is recorded
+				}
 				lt := (bo.Op == token.LSS && nv(bo.X) == lo && isLen(bo.Y)) || (bo.Op == token.GTR && isLen(bo.X) && nv(bo.Y) == lo)
 				if lt && cutBlock != nil && blockReaches(hb.Succs[0], cutBlock, false) {
 					whileOK = true
@@ -1575,4 +1624,169 @@ func kindSetDecision(p *pwPath, cond ssa.Value) (uint64, bool) {
 		}
 	}
 	return 0, false
+}
+
+// spanListElement: lo and hi are two fields of ONE element of a list that a function of the module builds by
+// appending one struct per iteration of a loop, and the element is picked by a counter that visits the list
+// in order from its first element; returns the values the producer stored to those two fields, and the block
+// of the producer's append.
+func spanListElement(lo, hi ssa.Value) (plo, phi ssa.Value, appendBlock *ssa.BasicBlock, ok bool) {
+	// field k of the element at index i of list T
+	elemField := func(v ssa.Value) (list, idx ssa.Value, k int, ok bool) {
+		switch x := v.(type) {
+		case *ssa.Field:
+			if ld, isLd := x.X.(*ssa.UnOp); isLd && ld.Op == token.MUL {
+				if ia, isIA := ld.X.(*ssa.IndexAddr); isIA {
+					return ia.X, ia.Index, x.Field, true
+				}
+			}
+		case *ssa.UnOp:
+			if x.Op == token.MUL {
+				if fa, isFA := x.X.(*ssa.FieldAddr); isFA {
+					if ia, isIA := fa.X.(*ssa.IndexAddr); isIA {
+						return ia.X, ia.Index, fa.Field, true
+					}
+					// the range variable: a cell that receives the element whole, once per iteration
+					if cell, isCell := fa.X.(*ssa.Alloc); isCell {
+						var whole ssa.Value
+						n := 0
+						for _, ref := range *cell.Referrers() {
+							switch r := ref.(type) {
+							case *ssa.Store:
+								if r.Addr == ssa.Value(cell) {
+									whole = r.Val
+									n++
+								}
+							case *ssa.FieldAddr:
+								for _, r2 := range *r.Referrers() {
+									if st, isSt := r2.(*ssa.Store); isSt && st.Addr == ssa.Value(r) {
+										n += 2 // a field is overwritten
+									}
+								}
+							}
+						}
+						if ld, isLd := whole.(*ssa.UnOp); n == 1 && isLd && ld.Op == token.MUL {
+							if ia, isIA := ld.X.(*ssa.IndexAddr); isIA {
+								return ia.X, ia.Index, fa.Field, true
+							}
+						}
+					}
+				}
+			}
+		}
+		return nil, nil, 0, false
+	}
+	t0, i0, k0, ok0 := elemField(lo)
+	t1, i1, k1, ok1 := elemField(hi)
+	if !ok0 || !ok1 || t0 != t1 || i0 != i1 || k0 == k1 {
+		return nil, nil, nil, false
+	}
+	// visited in order: the index counts from zero by one
+	if _, fromZero := counterFromZero(i0); !fromZero {
+		return nil, nil, nil, false
+	}
+	call, isCall := t0.(*ssa.Call)
+	if !isCall {
+		return nil, nil, nil, false
+	}
+	g := call.Call.StaticCallee()
+	if g == nil || !inModule(g) || len(g.Blocks) == 0 || g.Signature.Results().Len() != 1 {
+		return nil, nil, nil, false
+	}
+	// every return hands back the accumulator of one loop
+	var acc *ssa.Phi
+	for _, b := range g.Blocks {
+		ret, isRet := b.Instrs[len(b.Instrs)-1].(*ssa.Return)
+		if !isRet {
+			continue
+		}
+		ops := retOperands(ret)
+		if len(ops) != 1 {
+			return nil, nil, nil, false
+		}
+		ph, isPhi := stripTrivialPhi(ops[0]).(*ssa.Phi)
+		if !isPhi || (acc != nil && ph != acc) {
+			return nil, nil, nil, false
+		}
+		acc = ph
+	}
+	if acc == nil {
+		return nil, nil, nil, false
+	}
+	h := acc.Block()
+	body := loopBodyOf(h)
+	if len(body) < 2 {
+		return nil, nil, nil, false
+	}
+	var elem ssa.Value
+	for i, e := range acc.Edges {
+		if !body[h.Preds[i]] {
+			// before the loop: empty
+			switch x := e.(type) {
+			case *ssa.Const:
+				if !x.IsNil() {
+					return nil, nil, nil, false
+				}
+			case *ssa.MakeSlice:
+				if c, isC := x.Len.(*ssa.Const); !isC || c.Value == nil || constant.Sign(c.Value) != 0 {
+					return nil, nil, nil, false
+				}
+			case *ssa.Slice:
+				// []T{} : the whole of an array of length 0
+				pt, isPtr := x.X.Type().Underlying().(*types.Pointer)
+				if !isPtr {
+					return nil, nil, nil, false
+				}
+				if at, isArr := pt.Elem().Underlying().(*types.Array); !isArr || at.Len() != 0 {
+					return nil, nil, nil, false
+				}
+			default:
+				return nil, nil, nil, false
+			}
+			continue
+		}
+		base, el, isApp := singleAppended(e)
+		if !isApp || base != ssa.Value(acc) || (elem != nil && el != elem) {
+			return nil, nil, nil, false
+		}
+		elem = el
+		appendBlock = e.(*ssa.Call).Block()
+	}
+	if elem == nil || appendBlock == nil {
+		return nil, nil, nil, false
+	}
+	// the appended struct: built in a local, field by field
+	ld, isLd := elem.(*ssa.UnOp)
+	if !isLd || ld.Op != token.MUL {
+		return nil, nil, nil, false
+	}
+	cell, isAl := ld.X.(*ssa.Alloc)
+	if !isAl {
+		return nil, nil, nil, false
+	}
+	fieldVal := func(k int) ssa.Value {
+		var v ssa.Value
+		n := 0
+		for _, ref := range *cell.Referrers() {
+			fa, isFA := ref.(*ssa.FieldAddr)
+			if !isFA || fa.Field != k {
+				continue
+			}
+			for _, r2 := range *fa.Referrers() {
+				if st, isSt := r2.(*ssa.Store); isSt && st.Addr == ssa.Value(fa) {
+					v = st.Val
+					n++
+				}
+			}
+		}
+		if n != 1 {
+			return nil
+		}
+		return v
+	}
+	plo, phi = fieldVal(k0), fieldVal(k1)
+	if plo == nil || phi == nil {
+		return nil, nil, nil, false
+	}
+	return plo, phi, appendBlock, true
 }
